@@ -313,6 +313,9 @@ func (ft *funcTrans) desigHeaps(ec *evalCtx, e Expr) []string {
 	w := ft.w
 	switch x := e.(type) {
 	case *EField:
+		if h, ok := ft.typeLevelField(ec, x); ok {
+			return []string{h}
+		}
 		if id, ok := x.X.(*EIdent); ok {
 			if _, isVar := ec.lookup(id.Name); !isVar {
 				if pk := ec.findPkg(id.Name); pk != nil {
@@ -372,10 +375,14 @@ func (ft *funcTrans) havocDesignator(ecPre *evalCtx, e Expr, st, pre *State) {
 	old := w.heapSym(st, h)
 	switch x := e.(type) {
 	case *EField:
-		isTypeLevel := false
-		if id, ok := x.X.(*EIdent); ok {
-			if _, isVar := ecPre.lookup(id.Name); !isVar {
-				isTypeLevel = true
+		_, isTypeLevel := ft.typeLevelField(ecPre, x)
+		if !isTypeLevel {
+			if id, ok := x.X.(*EIdent); ok {
+				if _, isVar := ecPre.lookup(id.Name); !isVar {
+					if _, isLet := ecPre.lets[id.Name]; !isLet {
+						isTypeLevel = true // package-level variable
+					}
+				}
 			}
 		}
 		if isTypeLevel {
@@ -516,7 +523,8 @@ func (ft *funcTrans) appendOp(com *ssa.CallCommon, val *ssa.Call) {
 	w.addFact(fmt.Sprintf("(= %s (ite %s (store %s %s %s) (store %s %s %s)))", nw, fits, E, sa, inPlace, E, r, moved))
 	oldArr := fmt.Sprintf("(select %s %s)", E, sa)
 	srcArr := fmt.Sprintf("(select %s %s)", E, ta)
-	if isOne(tl, w) {
+	if isSingletonArg(com.Args[1]) {
+		w.addFact(fmt.Sprintf("(= %s %s)", tl, w.ilit(1)))
 		w.addFact(fmt.Sprintf("(= %s (store %s %s (select %s %s)))", inPlace, oldArr, w.iadd(so, sl), srcArr, to))
 	} else {
 		j := "j!a"
@@ -535,7 +543,20 @@ func (ft *funcTrans) appendOp(com *ssa.CallCommon, val *ssa.Call) {
 	}
 }
 
-func isOne(lenTerm string, w *World) bool { return false }
+// isSingletonArg: the appended slice is syntactically a one-element array literal
+// (the varargs form append(s, x)).
+func isSingletonArg(v ssa.Value) bool {
+	sl, ok := v.(*ssa.Slice)
+	if !ok || sl.Low != nil || sl.High != nil || sl.Max != nil {
+		return false
+	}
+	al, ok := sl.X.(*ssa.Alloc)
+	if !ok {
+		return false
+	}
+	at, ok := al.Type().(*types.Pointer).Elem().Underlying().(*types.Array)
+	return ok && at.Len() == 1
+}
 
 func (ft *funcTrans) havocAllOf(st *State, heap string) {
 	ft.newHeapVersion(st, heap)
@@ -606,10 +627,14 @@ func (ft *funcTrans) frameSpecOf() *frameSpec {
 		h := hs[0]
 		switch x := a.E.(type) {
 		case *EField:
-			isTypeLevel := false
-			if id, ok := x.X.(*EIdent); ok {
-				if _, isVar := ecPre.lookup(id.Name); !isVar {
-					isTypeLevel = true
+			_, isTypeLevel := ft.typeLevelField(ecPre, x)
+			if !isTypeLevel {
+				if id, ok := x.X.(*EIdent); ok {
+					if _, isVar := ecPre.lookup(id.Name); !isVar {
+						if _, isLet := ecPre.lets[id.Name]; !isLet {
+							isTypeLevel = true
+						}
+					}
 				}
 			}
 			if isTypeLevel {
@@ -698,4 +723,48 @@ func sortStrings(s []string) {
 			s[j], s[j-1] = s[j-1], s[j]
 		}
 	}
+}
+
+// typeLevelField recognises designators "T.f" and "pkg.T.f" (the whole field heap).
+func (ft *funcTrans) typeLevelField(ec *evalCtx, x *EField) (string, bool) {
+	w := ft.w
+	var tname string
+	switch b := x.X.(type) {
+	case *EIdent:
+		if _, isVar := ec.lookup(b.Name); isVar {
+			return "", false
+		}
+		if _, isLet := ec.lets[b.Name]; isLet {
+			return "", false
+		}
+		tname = b.Name
+	case *EField:
+		id, ok := b.X.(*EIdent)
+		if !ok {
+			return "", false
+		}
+		if _, isVar := ec.lookup(id.Name); isVar {
+			return "", false
+		}
+		if ec.findPkg(id.Name) == nil {
+			return "", false
+		}
+		tname = id.Name + "." + b.Name
+	default:
+		return "", false
+	}
+	gt := ec.resolveType(tname)
+	if gt == nil {
+		return "", false
+	}
+	ss := w.sortOf(gt)
+	if ss.Kind != KStruct {
+		return "", false
+	}
+	for _, fi := range w.fieldsOf(ss) {
+		if fi.Name == x.Name {
+			return w.fieldHeap(ss, fi), true
+		}
+	}
+	return "", false
 }
